@@ -12,6 +12,7 @@ def tok(ins):
     if k == "mark": return "m%d" % ins[1]
     if k == "wait": return "w%d" % ins[1]
     if k == "waittill": return "W%d.%s" % (ins[1], ".".join(str(n) for n in ins[2]))
+    if k == "waittill_timeout": return "X%d.%d.%d" % (ins[1], ins[2], ins[3])
     if k == "notify": return "N%d.%d" % (ins[1], ins[2])
     if k == "endon": return "E%d.%d" % (ins[1], ins[2])
     if k == "delete": return "D%d" % ins[1]
@@ -19,6 +20,7 @@ def tok(ins):
     if k == "thread": return "t%d" % ins[1]
     if k == "waitthread": return "T%d" % ins[1]
     if k == "pause": return "p"
+    if k == "waitparent": return "R%d" % ins[1]
     if k == "end":
         if ins[1] is None: return "e"
         if isinstance(ins[1], tuple): return "eP%d" % ins[1][1]
@@ -43,13 +45,15 @@ def stmt(ins):
         if len(ins[2]) == 1:
             return '$o%d waittill "n%d"' % (ins[1], ins[2][0])
         return "$o%d waittill_any %s" % (ins[1], " ".join('"n%d"' % n for n in ins[2]))
+    if k == "waittill_timeout": return '$o%d waittill_timeout %s "n%d"' % (ins[1], secs(ins[3]), ins[2])
     if k == "notify": return '$o%d notify "n%d"' % (ins[1], ins[2])
     if k == "endon": return '$o%d endon "n%d"' % (ins[1], ins[2])
     if k == "delete": return "$o%d delete" % ins[1]
     if k == "spawn": return 'local.sp%d = spawn SimpleEntity targetname "o%d"' % (ins[1], ins[1])
-    if k == "thread": return "thread t%d" % ins[1]
-    if k == "waitthread": return "waitthread t%d" % ins[1]
+    if k == "thread": return "thread t%d local" % ins[1]
+    if k == "waitthread": return "waitthread t%d local" % ins[1]
     if k == "pause": return "pause"
+    if k == "waitparent": return "local.p0 wait %s" % secs(ins[1])
     if k == "end":
         if ins[1] is None: return "end"
         if isinstance(ins[1], tuple): return "end local.p%d" % ins[1][1]
@@ -64,6 +68,8 @@ def render(prog):
         if body and body[0][0] == "params":
             out.append("t%d %s:" % (i, " ".join("local.p%d" % j for j in range(body[0][1]))))
             body = body[1:]
+        elif any(x[0] == "waitparent" for x in body):
+            out.append("t%d local.p0:" % i)
         else:
             out.append("t%d:" % i)
         out += [stmt(x) for x in body]
@@ -73,7 +79,11 @@ def render(prog):
 
 
 def script_line(prog, name="m"):
-    abstract = " / ".join(" ".join(tok(x) for x in body) for body in prog)
+    def head(body):
+        if body and body[0][0] == "params":
+            return ""
+        return "(1) " if any(x[0] == "waitparent" for x in body) else ""
+    abstract = " / ".join(head(body) + " ".join(tok(x) for x in body) for body in prog)
     return "script %s %s ## %s" % (name, render(prog).encode().hex(), abstract)
 
 
@@ -99,6 +109,12 @@ def gen_timer_prog(rng, nlabels=None):
             elif r < 0.8 and i + 1 < nl:
                 body.append(("thread", rng.randint(i + 1, nl - 1)))
                 body.append(mk.next())
+            elif r < 0.88 and i > 0:
+                body.append(("waitparent", rng.choice(DURS)))
+                body.append(mk.next())
+            elif r < 0.92:
+                body.append(("pause",))
+                body.append(mk.next())
             else:
                 body.append(mk.next())
         if rng.random() < 0.5:
@@ -123,7 +139,9 @@ def gen_sync_prog(rng):
             r = rng.random()
             o = rng.randint(1, nobj)
             n = rng.randint(1, 3)
-            if r < 0.18:
+            if r < 0.04:
+                body.append(("waittill_timeout", o, n, rng.choice([125, 250, 500])))
+            elif r < 0.18:
                 body.append(("waittill", o, [n]))
             elif r < 0.24:
                 ns = sorted(set([n, rng.randint(1, 3)]))
@@ -141,7 +159,8 @@ def gen_sync_prog(rng):
             elif r < 0.92:
                 body.append(("wait", rng.choice(DURS)))
             else:
-                body.append(("pause",) if rng.random() < 0.3 else mk.next())
+                x = rng.random()
+                body.append(("pause",) if x < 0.3 else ("waitparent", rng.choice(DURS)) if x < 0.6 and i > 0 else mk.next())
             body.append(mk.next())
         if rng.random() < 0.4:
             body.append(("end", rng.choice([None, 7])))
